@@ -175,7 +175,15 @@ func TestCheck(t *testing.T) {
 		sp := r.Spec.(spec)
 		switch {
 		case r.TimedOut:
-			c.Inconclusive(fmt.Sprintf("child %s [%d,%d) timed out (watchdog), log %s", sp.Mode, sp.From, sp.To, r.LogPath))
+			// A bubble only advances when every goroutine is durably blocked, and a mutex wait is not a
+			// durable block: an engine that dead-locks on a mutex keeps the bubble from ever reaching
+			// quiescence. The watchdog's goroutine dump then shows engine goroutines that the runtime
+			// itself reports as waiting for a mutex for minutes (a whole child normally takes seconds).
+			if parked := rig.MutexParked(r.LogPath, 3); len(parked) > 0 {
+				c.Violate("engine:never-returns:parked-on-mutex", fmt.Sprintf("child %s [%d,%d) never reached quiescence: engine goroutines have been waiting for a mutex for minutes in %v (goroutine dump: %s)", sp.Mode, sp.From, sp.To, parked, r.LogPath), map[string]any{"spec": sp})
+			} else {
+				c.Inconclusive(fmt.Sprintf("child %s [%d,%d) timed out (watchdog), log %s", sp.Mode, sp.From, sp.To, r.LogPath))
+			}
 		case len(r.Fatal) > 0:
 			line := digits.ReplaceAllString(r.Fatal[0], "N")
 			if len(line) > 100 {
